@@ -268,6 +268,17 @@ class TimeoutM(Model):
         return self
 
 
+class JoinHandleM(Model):
+    """tokio::task::JoinHandle of a task started with tokio::spawn: the task runs on whether or not the handle is awaited or kept"""
+
+    def __init__(self, fut):
+        self.task = Cell(fut, 'spawned-task')
+        self.out = None
+
+    def ite(self, c, o):
+        return self
+
+
 class JoinAllM(Model):
     """futures::future::join_all / try_join_all over a concrete list of futures"""
 
@@ -294,6 +305,13 @@ class SharedM(Model):
 def poll_future(ip, loc):
     """Future::poll on whatever lives at loc"""
     v = read_loc(loc)
+    if isinstance(v, JoinHandleM):
+        if v.out is None:
+            r = yield from poll_future(ip, Loc(v.task))
+            if r.discr != 0:
+                return PENDING
+            v.out = (r.payload[0][0],)
+        return ready(ok(v.out[0]))
     if isinstance(v, JoinAllM):
         from models_coll import Seq
         pending = False
@@ -510,7 +528,11 @@ def _install_base(ctx):
     @M.reg('tokio::spawn', 'task::spawn', '::spawn')
     def tokio_spawn(ip, pc, args, dt):
         ip.path.effect('spawn', args[0])
-        return Opaque('JoinHandle')
+        h = JoinHandleM(args[0])
+        sp = getattr(ip.path, 'spawned_handles', [])
+        sp.append(h)
+        ip.path.spawned_handles = sp
+        return h
 
     @M.reg('future::try_join_all', 'try_join_all::try_join_all', 'future::join_all', 'join_all::join_all', 'try_join_all', 'join_all')
     def join_all(ip, pc, args, dt):
